@@ -704,7 +704,7 @@ class Body:
         return "_%d" % path.root
 
     # -- derives-from (flow-insensitive backward slice) ---------------------------------------
-    def sources(self, operand, max_nodes=4000, stop_at_calls=True, transparent=TRANSPARENT):
+    def sources(self, operand, max_nodes=4000, stop_at_calls=True, transparent=TRANSPARENT, stop_bin=()):
         """Set of primitive sources an operand may derive from:
         ('const', value, constdesc) ('arg', local) ('call', Call) ('field', Path) ('local', n)"""
         out = []
@@ -756,6 +756,8 @@ class Body:
                         push_op(rv[2])
                     elif k == "bin":
                         out.append(("bin", rv[1]))
+                        if rv[1] in stop_bin:
+                            continue
                         push_op(rv[2])
                         push_op(rv[3])
                     elif k == "un":
